@@ -102,6 +102,8 @@ Definition diagnose (c : ctx_table) : list (name * string * name) :=
        (fun _ => plain_bvar (ct_md_valid c) v_iv) [ct_variant c] ++
   diag c "MinidumpContext::valid_registers does not filter by exactly this type's register_is_valid(reg, &self.valid)"%string
        (fun _ => plain_bvar (ct_md_filter c) v_iv) [ct_variant c] ++
+  diag c "type Register is neither u32 nor u64"%string
+       (fun _ => (ct_width c =? 32) || (ct_width c =? 64)) [ct_name c] ++
   diag c "default_memoize_register does not compare names exactly: a spelling set_register / get_register_always do not know (they match string literals) would be reported present"%string
        (fun _ => ct_memo_cmp c =? 0) [ct_name c] ++
   diag c "a register name or alias contains an upper-case ASCII letter"%string
